@@ -100,8 +100,11 @@ def generate(rng, tier):
         qs = dense(rng, xs, ext)
         want = [poly_eval(polys[l], q) for q in qs for l in range(L)]
         dtag, qtag = gen.pick_dims(rng, 1 + len(trailing), 1)
-        line = i1_line("Q", xs, [n] + trailing, flat, strat, e_array("Q", [len(qs)], qs, qtag=qtag), dtag=dtag,
-                       dlay=rng.choice(gen.LAYS_ND))
+        # a third of the cases through interp_array_into: the caller's buffer holds old contents (the runner pre-fills it), which must
+        # not leak into the result (seed C16-r8m1: a spline evaluation that accumulates into its target)
+        ent = e_array("Q", [len(qs)], qs, qtag=qtag) if rng.random() < 0.67 else \
+            gen.e_ainto("Q", [len(qs)], [len(qs)] + trailing, qs, qtag=qtag, blay=rng.choice(gen.LAYS_ND))
+        line = i1_line("Q", xs, [n] + trailing, flat, strat, ent, dtag=dtag, dlay=rng.choice(gen.LAYS_ND))
         cases.append({"line": line, "meta": {"want": want, "full": True}})
     # i64 elements: affine / bilinear functions with integer coefficients are reproduced exactly in integer arithmetic too (every
     # secant slope is an exact integer quotient), in range and extrapolated
